@@ -1438,6 +1438,15 @@ class Exec:
                 obj, idx, v = vals
                 try:
                     self.at(stmt, s3)
+                    if isinstance(obj, SArr) and isinstance(idx, SArr) and idx.kind == "b" and idx.shape == obj.shape:
+                        # x[mask] op= v  with a (possibly symbolic) mask: elementwise
+                        full = L.as_arr(self.apply_binop(stmt.op, obj, v, stmt, s3))
+                        it = list(itertools.product(*[range(k) for k in obj.shape]))
+                        for pos in it:
+                            obj.a[pos] = L.to_kind(V.ite(idx.a[pos], full.a[pos], obj.a[pos]), obj.kind)
+                        s3.log.append(("arr", id(_root_of(obj.a))))
+                        out.append((s3, NORMAL))
+                        continue
                     cur = self.getitem(obj, idx, s3)
                     nv = self.apply_binop(stmt.op, cur, v, stmt, s3)
                     self.setitem(obj, idx, nv, s3)
